@@ -1050,6 +1050,8 @@ def check(ctx):
         check_live_range(ctx, cfg, it)
         check_total(ctx, cfg, it)
         check_other_cursor_moves(ctx, cfg, it)
+        from . import c03 as _c03
+        _c03.check_owner_constructions(ctx, cfg, "C06.C")
         n = check_unchecked_bounds(ctx, cfg, it)
         ctx.floor("C06.U", "unchecked accesses to the iterator's storage (%s)" % cfg, n, 4)
         # FusedIterator / ExactSizeIterator are claimed by impls: they must exist for the checks above to matter
